@@ -539,6 +539,7 @@ mcnp2cad['tx'] = tx
 mcnp2cad['ty'] = ty
 mcnp2cad['tz'] = tz
 mcnp2cad['x'] = xx
+mcnp2cad['y'] = yy
 mcnp2cad['z'] = zz
 mcnp2cad['sq'] = sq
 mcnp2cad['gq'] = gq
